@@ -545,30 +545,22 @@ def sec_kruskal_one(ck, G, T, V, edges, g, ref_lab, k):
         eset.setdefault((u, v), set()).add(w)
     nfill = 2 * (V - k)
     body, pad = ke[:nfill], ke[nfill:]
-    if pad:
+    if pad and all(x == (0, 0, 0) for x in pad):
         ck.fail("kruskal/disconnected-padding-edges",
                 "kruskal() on a graph with %d components (V=%d) returns %d edges: the last %d are unfilled (0,0) rows of weight 0 that are not edges of the graph" % (
                     k, V, len(ke), len(pad)), {"V": V, "edges": edges, "impl": ke})
-    bad = None
-    if len(ke) < nfill:
-        bad = "too few edges"
-    elif any((u, v) not in eset or w not in eset[(u, v)] for u, v, w in body):
-        bad = "an edge that is not in the graph"
-    elif any(body[2 * i + 1] != (body[2 * i][1], body[2 * i][0], body[2 * i][2]) for i in range(nfill // 2)):
-        bad = "not symmetric (each tree edge must appear in both orientations)"
     else:
-        und = body[0::2]
-        if components(V, und) != ref_lab:
-            bad = "does not span the components of the graph (or contains a cycle)"
-        else:
-            tot = sum(w for _, _, w in und)
-            want, n = msf_weight(V, edges)
-            if tot != want:
-                bad = "total weight %d is not minimal (%d)" % (tot, want)
+        body = ke
+    bad = forest_verdict(V, body, edges, lambda a, b, w: (a, b) in eset and w in eset[(a, b)])
     if bad:
         ck.fail("kruskal/not-a-minimum-spanning-forest", "kruskal() on V=%d edges=%s: %s; returned %s" % (
             V, edges if len(edges) < 14 else len(edges), bad, ke), {"V": V, "edges": edges, "impl": ke, "why": bad})
-
+    if V <= 12 and edges and len(body) % 2 == 0:
+        und = body[0::2]
+        okf = bad is None or not any(x in bad for x in ("cycle", "undirected edges", "span", "odd", "reversal"))
+        T.add("kruskal_forest_check", "Bool.eqb (forest_check %s %s && cc_check %s %s %s) %s" % (
+            cnat(V), cE(und), cnat(V), cE(und), zl(ref_lab), "true" if okf else "false"),
+            {"V": V, "edges": edges, "impl": ke, "bruteforce": bad})
 
 
 # ------------------------------------------------------------------ section: builders
@@ -979,6 +971,175 @@ def sec_structural(ck, G, T):
                             c, V, edges, np.asarray(g.edges).tolist(), np.asarray(g.weights).tolist(), want.tolist()), dict(rp, c=c))
     ck.section("structural", graphs=len(cases))
 
+
+# ------------------------------------------------------------------ section: spanning trees under ties
+def forest_verdict(V, rows, graph_und, weight_ok):
+    """Full spanning-forest definition on a returned edge list `rows` = [(a, b, w)] (w exact integer key):
+    rows come in reversed pairs; exactly V - c undirected edges; acyclic (union-find); spans every
+    component of the reference graph `graph_und` = [(u, v, w)]; total weight minimal; weights valid."""
+    if len(rows) % 2:
+        return "odd number of directed edges"
+    for i in range(0, len(rows), 2):
+        a, b, w = rows[i]
+        if rows[i + 1] != (b, a, w):
+            return "row %d is not followed by its reversal (each tree edge must be stored in both orientations)" % i
+    und = rows[0::2]
+    ref_lab = components(V, graph_und)
+    c = max(ref_lab) + 1
+    if len(und) != V - c:
+        return "%d undirected edges, a spanning forest of %d vertices in %d component(s) has %d" % (len(und), V, c, V - c)
+    p = list(range(V))
+
+    def find(x):
+        while p[x] != x:
+            p[x] = p[p[x]]
+            x = p[x]
+        return x
+    for a, b, w in und:
+        ra, rb = find(a), find(b)
+        if ra == rb:
+            return "edge (%d,%d) closes a cycle" % (a, b)
+        p[ra] = rb
+    if components(V, und) != ref_lab:
+        return "does not span the components of the graph"
+    bad = [(a, b, w) for a, b, w in und if not weight_ok(a, b, w)]
+    if bad:
+        return "edge %s is not an edge of the graph with that weight" % (bad[0],)
+    want, _ = msf_weight(V, graph_und)
+    tot = sum(w for _, _, w in und)
+    if tot != want:
+        return "total weight %s is not the minimum %s" % (tot, want)
+    return None
+
+
+def tie_clouds(ck, rng):
+    """Point clouds with many equal distances: (name, base points, how many orders / 'all')."""
+    P = itertools.product
+    out = []
+
+    def lat(*dims):
+        return np.array(list(P(*[range(d) for d in dims])), float)
+    bases = [("lattice-2x2", lat(2, 2)), ("lattice-2x3", lat(2, 3)), ("lattice-3x3", lat(3, 3)), ("lattice-3x4", lat(3, 4)),
+             ("lattice-4x4", lat(4, 4)), ("lattice-2x2x2", lat(2, 2, 2)), ("lattice-2x2x3", lat(2, 2, 3)), ("lattice-3x3x3", lat(3, 3, 3))]
+    for k in range(2, 9):
+        bases.append(("line-%d" % k, lat(k)))
+    for a, b in ((3, 3), (3, 4), (4, 4), (5, 5), (3, 6)):
+        L = lat(a, b)
+        bases.append(("ring-%dx%d" % (a, b), L[(L[:, 0] == 0) | (L[:, 0] == a - 1) | (L[:, 1] == 0) | (L[:, 1] == b - 1)]))
+    L = lat(3, 3, 3)
+    bases.append(("shell-3x3x3", L[(np.abs(L - 1).max(1) == 1)]))
+    for d in (3, 4, 5):
+        I = np.eye(d)
+        bases.append(("simplex-%d" % d, I))                       # all distances equal
+        bases.append(("cross-polytope-%d" % d, np.vstack((I, -I))))  # two distance values
+        bases.append(("simplex+origin-%d" % d, np.vstack((I, np.zeros((1, d))))))
+    bases.append(("two-squares", np.array([[0, 0], [1, 0], [0, 1], [1, 1], [3, 0], [4, 0], [3, 1], [4, 1]], float)))
+    bases.append(("dup-lattice-2x2", np.vstack((lat(2, 2), lat(2, 2)[:2]))))
+    bases.append(("dup-lattice-3x3", np.vstack((lat(3, 3), lat(3, 3)[[0, 4, 4]]))))
+    bases.append(("dup-line", np.array([[0], [0], [1], [1], [2], [2]], float)))
+    nord = ck.n(60, 600)
+    for name, B in bases:
+        n = len(B)
+        if n <= 5 or (ck.thorough() and n <= 7):
+            orders = [list(p) for p in itertools.permutations(range(n))]
+        else:
+            orders = [list(range(n))] + [[int(x) for x in rng.permutation(n)] for _ in range(nord)]
+        for o in orders:
+            out.append((name, B[o]))
+    # the configuration reported for the cyclic-proposal failure (border of the 3x3 lattice in this order)
+    out.append(("ring-3x3-reported-order", np.array([[0, 1], [2, 0], [0, 0], [1, 2], [2, 2], [2, 1], [0, 2], [1, 0]], float)))
+    # random lattice clouds, 5-15 points, coordinates 0..4, 2-3 dimensions, duplicates allowed
+    for _ in range(ck.n(1500, 20000)):
+        n = int(rng.integers(5, 16))
+        dim = int(rng.integers(2, 4))
+        out.append(("random-lattice-cloud", rng.integers(0, int(rng.integers(2, 6)), size=(n, dim)).astype(float)))
+    return out
+
+
+def tie_graphs(ck, rng):
+    """Symmetric graphs with tied weights for kruskal: grid graphs / complete graphs / cycles with
+    one or two weight values, several components, shuffled edge order."""
+    out = []
+    for _ in range(ck.n(150, 1500)):
+        kind = int(rng.integers(4))
+        if kind == 0:
+            a, b = int(rng.integers(2, 5)), int(rng.integers(2, 5))
+            idx = lambda i, j: i * b + j
+            und = [(idx(i, j), idx(i + 1, j)) for i in range(a - 1) for j in range(b)] + [(idx(i, j), idx(i, j + 1)) for i in range(a) for j in range(b - 1)]
+            V = a * b
+        elif kind == 1:
+            V = int(rng.integers(3, 8))
+            und = [(u, v) for u in range(V) for v in range(u + 1, V)]
+        elif kind == 2:
+            V = int(rng.integers(3, 10))
+            und = [(u, (u + 1) % V) for u in range(V)]
+        else:
+            V1, V2 = int(rng.integers(2, 5)), int(rng.integers(2, 5))
+            und = [(u, v) for u in range(V1) for v in range(u + 1, V1)] + [(V1 + u, V1 + v) for u in range(V2) for v in range(u + 1, V2)]
+            V = V1 + V2 + int(rng.integers(0, 2))
+        vals = [1] if rng.random() < 0.4 else ([1, 2] if rng.random() < 0.7 else [0, 1])
+        edges = []
+        for u, v in und:
+            w = int(vals[rng.integers(len(vals))])
+            edges += [(u, v, w), (v, u, w)]
+        edges = [edges[i] for i in rng.permutation(len(edges))]
+        out.append((V, edges, "sym-tied-weights"))
+    return out
+
+
+def sec_spanning(ck, G, T):
+    rng = ck.rng("spanning")
+    nm = 0
+    seen_fail = 0
+    for name, X in tie_clouds(ck, rng):
+        n = len(X)
+        D2 = sqd(X)
+        ck.count(("mst", X.tobytes(), X.shape), nontrivial=n > 1, bucket="mst:" + name.split("-")[0])
+        nm += 1
+        try:
+            m = with_alarm(2, lambda: G.mst(X.copy()))
+        except Timeout:
+            ck.fail("mst/identical-points-never-terminates" if not D2.any() else "mst/never-terminates",
+                    "mst(X) did not return within 2 s for X=%s" % X.tolist(), {"X": X.tolist()})
+            continue
+        except Exception as e:  # noqa
+            ck.fail("mst/raises", "mst raised %s: %s" % (type(e).__name__, e), {"X": X.tolist()})
+            continue
+        me = np.asarray(m.edges).reshape(-1, 2).tolist() if m.E else []
+        rows = [(int(a), int(b), int(D2[a, b])) for a, b in me]
+        full = [(a, b, int(D2[a, b])) for a in range(n) for b in range(a + 1, n)]
+        # minimum total EUCLIDEAN weight: the multiset of edge lengths of all minimum spanning trees is the
+        # same, so compare multisets of squared lengths exactly (sum of sqrt compared only through that)
+        bad = forest_verdict(n, rows, full, lambda a, b, w: w == int(D2[a, b]))
+        if bad is None and sorted(w for _, _, w in rows[0::2]) != sorted(kruskal_multiset(n, full)):
+            bad = "edge lengths are not those of a minimum spanning tree"
+        if bad is None and not np.array_equal(np.asarray(m.weights, float), np.sqrt(np.array([D2[a, b] for a, b in me], float))):
+            bad = "weights are not the euclidean lengths of the edges"
+        if bad:
+            tied = len(set(D2[np.triu_indices(n, 1)].tolist())) < n * (n - 1) // 2
+            ck.fail("mst/not-a-minimum-spanning-tree" + ("-tied-distances" if tied else ""),
+                    "mst(X), X=%s (%s): %s; returned edges %s" % (X.tolist(), name, bad, me), {"X": X.tolist(), "impl": me, "why": bad, "cloud": name})
+            seen_fail += 1
+        # proved-sound checkers in Coq: acyclic (forest_check) and spanning (cc_check with one label)
+        if n <= 16 and (nm % ck.n(6, 2) == 0 or bad):
+            und = [(a, b, w) for a, b, w in rows[0::2]]
+            ok_forest = bad is None or not any(k in bad for k in ("cycle", "undirected edges", "span", "odd", "reversal"))
+            T.newgraph(None)
+            T.add("mst_forest_check", "Bool.eqb (forest_check %s %s && cc_check %s %s %s) %s" % (
+                cnat(n), cE(und), cnat(n), cE(und), zl([0] * n), "true" if ok_forest else "false"),
+                {"X": X.tolist(), "impl": me, "bruteforce": bad})
+    # kruskal on tie-heavy symmetric graphs
+    WeightedGraph = G.WeightedGraph
+    nk = 0
+    for V, edges, bucket in tie_graphs(ck, rng):
+        ck.count(("kr", V, tuple(edges)), bucket=bucket)
+        nk += 1
+        g = mkgraph(WeightedGraph, V, edges)
+        ref_lab = components(V, edges)
+        T.newgraph(cE(edges))
+        sec_kruskal_one(ck, G, T, V, edges, g, ref_lab, max(ref_lab) + 1)
+    ck.section("spanning", mst_calls=nm, kruskal_tied_graphs=nk)
+
 # ------------------------------------------------------------------ term collection
 class Terms:
     def __init__(self):
@@ -1107,6 +1268,7 @@ def run(ck):
     import nipy.algorithms.graph.bipartite_graph as B
     sec_builders(ck, G, B, T)
     sec_structural(ck, G, T)
+    sec_spanning(ck, G, T)
     t3 = time.time()
     T.run(ck)
     ck.section("timing", sp_s=round(t1 - t0, 1), sym_s=round(t2 - t1, 1), builders_structural_s=round(t3 - t2, 1), coq_eval_s=round(time.time() - t3, 1))
